@@ -32,8 +32,9 @@ TIERS = {
     "C15": {"quick": (128, 14, 16), "thorough": (5000, 30, 16)},
     "C05": {"quick": (128, 10, 16), "thorough": (5000, 24, 16)},
     "C13": {"quick": (128, 10, 16), "thorough": (5000, 24, 16)},
+    "C18": {"quick": (128, 10, 16), "thorough": (5000, 24, 16)},
 }
-LEVEL = {"C01": "exploration", "C16": "exploration", "C14": "fault_enumeration", "C15": "fault_enumeration", "C05": "exploration", "C13": "exploration"}
+LEVEL = {"C01": "exploration", "C16": "exploration", "C14": "fault_enumeration", "C15": "fault_enumeration", "C05": "exploration", "C13": "exploration", "C18": "exploration"}
 WORKER_TIMEOUT = {"quick": 900, "thorough": 4 * 3600}
 
 
@@ -328,8 +329,10 @@ def check(prop, tier, seed, runs=None, nops=None, workers=None, opts=None):
     print(f"{prop} {tier}: {len(results)} runs, {stats.get('ops', 0)} steps, endings {dict(ended)}, "
           f"{len(reported)} violation(s), {sum(known_hits.values())} known-finding hit(s), {wall:.0f}s")
     if problems:
-        for pmsg in problems[:10]:
-            print("HARNESS-PROBLEM:", pmsg[:1500], file=sys.stderr)
+        for pmsg in problems[:3]:
+            print("HARNESS-PROBLEM:", pmsg[:900], file=sys.stderr)
+        if len(problems) > 3:
+            print(f"HARNESS-PROBLEM: ... and {len(problems) - 3} more", file=sys.stderr)
     if reported:
         return 1
     if problems:
